@@ -77,6 +77,7 @@ func dedupDriver(a *Args) {
 
 	var agent *hx.Proc
 	idsUsed := 0
+	unserved := 0
 	startAgent := func() bool {
 		if agent != nil {
 			agent.Kill()
@@ -115,11 +116,18 @@ func dedupDriver(a *Args) {
 				time.Sleep(time.Duration(d) * time.Millisecond)
 			}
 		}
-		// wait until every listed ID was served once, then a settle time for stray duplicates
-		deadline := time.Now().Add(20 * time.Second)
+		// wait until every listed ID was served once, then a settle time for stray duplicates. (An ID that
+		// is never served is a fact the trace shows; after three such histories the remaining ones wait
+		// only briefly, so that a broken agent does not turn the run into hours of waiting.)
+		wait := 20 * time.Second
+		if unserved >= 3 {
+			wait = 400 * time.Millisecond
+		}
+		deadline := time.Now().Add(wait)
+		done := false
 		for time.Now().Before(deadline) {
 			mu.Lock()
-			done := true
+			done = true
 			for id := range want {
 				if posts[id] < 1 {
 					done = false
@@ -130,6 +138,9 @@ func dedupDriver(a *Args) {
 				break
 			}
 			time.Sleep(2 * time.Millisecond)
+		}
+		if !done {
+			unserved++
 		}
 		time.Sleep(15 * time.Millisecond)
 		ex, code := agent.Exited()
